@@ -285,7 +285,7 @@ def _worker(job, q):
 def run_jobs(jobs, nproc=None, job_timeout=None):
     """each job in its own forked process (fresh DAG tables, fresh module globals), up to nproc at a time."""
     nproc = nproc or int(os.environ.get("SYMGRID_PROCS", "14"))
-    job_timeout = job_timeout or (900 if tier() == "quick" else 3600)
+    job_timeout = job_timeout or (900 if tier() == "quick" else 2400)
     ctxm = mp.get_context("fork")
     pending = list(jobs)
     running = []
@@ -307,6 +307,8 @@ def run_jobs(jobs, nproc=None, job_timeout=None):
             if got is not None:
                 p.join(5)
                 results.append(got)
+                if os.environ.get("SYMGRID_VERBOSE"):
+                    print(f"  job {got['job']}: {got['wall']}s, {len(got['records'])} obligations{', ERROR ' + str(got['error'])[:80] if got['error'] else ''}", file=sys.stderr, flush=True)
             elif not p.is_alive():
                 try:
                     got = q.get(timeout=1)
